@@ -46,29 +46,29 @@ BASE = {"Prop": "C04", "Mode": "family", "NMets": 2, "NRxns": 2, "BPal": "q6", "
 TIERS = {
     "C04": {
         "quick": {
-            "design": [{"NRxns": 3, "BPal": "q6", "OPal": "first", "Canon": True, "Thm": {"dual"}}],
+            "design": [{"NRxns": 3, "BPal": "q4", "OPal": "first", "Canon": True, "Thm": {"dual"}}],
             "gens": [("family2x2", {"NRxns": 2, "BPal": "q6", "OPal": "few"}, 1),
-                     ("walk", {"Mode": "walk", "NMets": 3, "NRxns": 5, "BPal": "t8", "NWalks": 700, "Depth": 8}, 2)],
+                     ("walk", {"Mode": "walk", "NMets": 3, "NRxns": 5, "BPal": "t8", "NWalks": 500, "Depth": 8}, 2)],
         },
         "thorough": {
             "design": [{"NRxns": 3, "BPal": "q6", "OPal": "unit", "Canon": True, "Thm": {"dual", "range"}}],
             "gens": [("family2x2", {"NRxns": 2, "BPal": "t8", "OPal": "rich"}, 1),
                      ("family2x3", {"NRxns": 3, "BPal": "q6", "OPal": "unit", "Canon": True}, 1),
-                     ("walk", {"Mode": "walk", "NMets": 4, "NRxns": 6, "BPal": "i9", "NWalks": 8000, "Depth": 10}, 2)],
+                     ("walk", {"Mode": "walk", "NMets": 4, "NRxns": 6, "BPal": "i9", "NWalks": 5000, "Depth": 10}, 2)],
         },
     },
     "C05": {
         "quick": {
             "design": [{"Mode": "proto", "NRxns": 3, "BPal": "f3", "OPal": "first", "Canon": True},
                        {"NRxns": 3, "BPal": "f3", "OPal": "first", "Canon": True, "Thm": {"range", "loop"}}],
-            "gens": [("family2x3", {"NRxns": 3, "BPal": "f3", "OPal": "unit", "Canon": True}, 1),
+            "gens": [("family2x3", {"NRxns": 3, "BPal": "f3", "OPal": "first", "Canon": True}, 1),
                      ("cycle2", {"Topo": "cyc2", "NMets": 2, "NRxns": 4, "BPal": "f3", "OPal": "unit"}, 1),
                      ("walk", {"Mode": "walk", "NMets": 3, "NRxns": 6, "BPal": "f7", "NWalks": 300, "Depth": 6}, 2)],
         },
         "thorough": {
             "design": [{"Mode": "proto", "NRxns": 3, "BPal": "f4", "OPal": "unit", "Canon": True},
                        {"NRxns": 3, "BPal": "f7", "OPal": "unit", "Canon": True, "Thm": {"range", "loop"}}],
-            "gens": [("family2x3", {"NRxns": 3, "BPal": "f4", "OPal": "unit", "Canon": True}, 2),
+            "gens": [("family2x3", {"NRxns": 3, "BPal": "f4", "OPal": "unit", "Canon": True}, 1),
                      ("cycle2", {"Topo": "cyc2", "NMets": 2, "NRxns": 4, "BPal": "f7", "OPal": "unit"}, 1),
                      ("cycle3", {"Topo": "cyc3", "NMets": 3, "NRxns": 5, "BPal": "f4", "OPal": "unit"}, 1),
                      ("walk", {"Mode": "walk", "NMets": 4, "NRxns": 6, "BPal": "i9", "NWalks": 5000, "Depth": 8}, 2)],
@@ -77,16 +77,16 @@ TIERS = {
     "C19": {
         "quick": {
             "design": [{"NRxns": 3, "BPal": "z5", "OPal": "first", "Canon": True, "Thm": {"blocked"}}],
-            "gens": [("family2x3", {"NRxns": 3, "BPal": "z3", "OPal": "unit", "Canon": True}, 1),
+            "gens": [("family2x3", {"NRxns": 3, "BPal": "z3", "OPal": "first", "Canon": True}, 1),
                      ("cycle2", {"Topo": "cyc2", "NMets": 2, "NRxns": 4, "BPal": "z3", "OPal": "first"}, 1),
                      ("walk", {"Mode": "walk", "NMets": 3, "NRxns": 6, "BPal": "z5", "NWalks": 500, "Depth": 6}, 2)],
         },
         "thorough": {
             "design": [{"NRxns": 3, "BPal": "z5", "OPal": "unit", "Canon": True, "Thm": {"blocked"}}],
-            "gens": [("family2x3", {"NRxns": 3, "BPal": "z5", "OPal": "unit", "Canon": True}, 2),
+            "gens": [("family2x3", {"NRxns": 3, "BPal": "z5", "OPal": "unit", "Canon": True}, 1),
                      ("cycle2", {"Topo": "cyc2", "NMets": 2, "NRxns": 4, "BPal": "z5", "OPal": "unit"}, 2),
                      ("cycle3", {"Topo": "cyc3", "NMets": 3, "NRxns": 5, "BPal": "z3", "OPal": "first"}, 2),
-                     ("walk", {"Mode": "walk", "NMets": 4, "NRxns": 7, "BPal": "z5", "NWalks": 6000, "Depth": 8}, 2)],
+                     ("walk", {"Mode": "walk", "NMets": 4, "NRxns": 7, "BPal": "z5", "NWalks": 4000, "Depth": 8}, 2)],
         },
     },
     "C17": {
@@ -522,6 +522,9 @@ def drive_all(items, nproc=None, wd=None):
                             inflight = None
                 os.unlink(path)
             rest = [it for it in slices[w] if it[0] not in done]
+            if p.exitcode == 3:
+                raise C.Machinery("driver timed out (120 s) on behaviour %s" %
+                                  json.dumps([it[2] for it in rest if it[0] == inflight])[:500])
             if p.exitcode == 0 and not rest:
                 slices[w] = []
                 continue
@@ -605,6 +608,7 @@ def run(prop, tier, replay=None):
     total_traces = total_events = 0
     per_action, samples, cases = {}, [], set()
     undecided = ncrash = 0
+    und_why = {}
     gen_cov = {}
     for name, over, npal in list(T["gens"]) + [("witnesses", None, 1)]:
         if over is None:
@@ -645,6 +649,7 @@ def run(prop, tier, replay=None):
         for v in verdicts:
             if v.get("verdict") == "UNDECIDED":
                 undecided += 1
+                und_why[v.get("why", "?")] = und_why.get(v.get("why", "?"), 0) + 1
                 continue
             pal, bi = meta[v["tid"]]
             cl = set(v.get("clauses", []))
@@ -688,7 +693,7 @@ def run(prop, tier, replay=None):
     return rep.finish({
         "traces_validated_against_impl": total_traces, "events_validated": total_events,
         "per_action_counts": per_action, "negative_controls": controls,
-        "undecided_events": undecided, "calls_that_killed_the_worker": ncrash,
+        "undecided_events": undecided, "undecided_by_reason": und_why, "calls_that_killed_the_worker": ncrash,
         "distinct_pre_state_action_pairs": len(cases),
         "rule": "a case is a distinct (instance incl. the edits applied so far, call with its arguments) pair; "
                 "palettes (solver interface, id spelling) multiply the traces, not the cases",
